@@ -83,6 +83,14 @@ JOBS.append(dict(name='c02_batch_rows_int32', wip=False, est_s=300, timeout=900,
                       'while the other columns deliver rows_to_read -> columns of one batch differ in length (native: /tmp/colreader/demo_zc)',
                  **BRJ, **BR))
 # C19: the same one-column job with every allocation allowed to fail (cbmc 6 default) + leak check
+# batch reader creation: what projection ends up in projected_columns (by index / by name / none), bounded in length
+BC = dict(BR)
+BC['harness'] = 'harness/C02/batch_create.c'
+BC['trusted'] = CR['trusted'] + ['batch_create harness: carquet_schema_find_column as an assumed contract (deterministic in the name, result in [-1, num_leaves)); carquet_reader_num_columns restated (one-line getter)']
+JOBS.append(dict(name='c02_batch_create_projection', wip=False, est_s=40, timeout=600, entry='h_batch_create', replace=['carquet_column_read_batch', 'carquet_read_next_page', 'load_next_page'],
+                 functions=['carquet_batch_reader_create', 'resolve_column_name'], unwind=8, level='bounded', min_loop_obligations=0,
+                 defines=['CQV_TYPE=1', 'CQV_MEMCPY_EXACT=16', 'CQV_MEMSET_EXACT=64'], unwindset=['memcpy.0:17', 'memset.0:65'],
+                 bound='projection length <= 4 entries, file columns <= 6; indices and names symbolic', c19=True, **BC))
 BR19 = dict(BR)
 BR19['prop'] = 'C19'
 JOBS.append(dict(name='c19_batch_next_int32', wip=False, est_s=20, timeout=600,
